@@ -10,6 +10,7 @@
 package errs
 
 import (
+	"errors"
 	"fmt"
 	"sort"
 	"strconv"
@@ -64,6 +65,7 @@ type ragg struct {
 	preAny        int // evaluations with an error and a scripted status on the response
 	afterSendFile int // evaluations whose error reached the framework after a c.SendFile call in the chain
 	viaLogger     int // evaluations whose error came back to a logger middleware (which delivers it itself)
+	nonFwStatus   int // default handler answered an error without *fiber.Error inside with another status than 500
 	panicked      int // evaluations whose error was a panic turned into an error by recover.New
 	// the app the rule selects (under an accepted reading) answers with the default handler:
 	// the root without handler, or an app that names fiber.DefaultErrorHandler explicitly
@@ -115,6 +117,7 @@ func (a *ragg) merge(b *ragg) {
 	a.preAny += b.preAny
 	a.afterSendFile += b.afterSendFile
 	a.viaLogger += b.viaLogger
+	a.nonFwStatus += b.nonFwStatus
 	a.panicked += b.panicked
 	a.defaultOK = a.defaultOK || b.defaultOK
 	a.flipWithin = a.flipWithin || b.flipWithin
@@ -140,6 +143,11 @@ func (a *ragg) merge(b *ragg) {
 	if a.posClass == "" {
 		a.posClass = b.posClass
 	}
+}
+
+func hasFiberError(err error) bool {
+	var fe *fiber.Error
+	return errors.As(err, &fe)
 }
 
 func posClassOf(p plan) string {
@@ -249,7 +257,9 @@ func judgeEval(ts *treeSpec, rq *reqSpec, s *slot, resp *drive.Resp, build int, 
 			if framework {
 				looksDefault = status == 404 || status == 405
 			} else {
-				looksDefault = status == codeOf(s.raisedErr) && string(resp.Body) == s.raisedErr.Error()
+				// the default handler's body is the error text; its status is only stated for
+				// errors that are or wrap a *fiber.Error
+				looksDefault = string(resp.Body) == s.raisedErr.Error() && (!hasFiberError(s.raisedErr) || status == codeOf(s.raisedErr))
 			}
 			if !looksDefault {
 				id = idNoneRan
@@ -317,6 +327,12 @@ func judgeEval(ts *treeSpec, rq *reqSpec, s *slot, resp *drive.Resp, build int, 
 		} else {
 			want = codeOf(s.raisedErr)
 			ok = status == want
+			if !ok && !hasFiberError(s.raisedErr) {
+				// the statement fixes the default handler's status only for framework error
+				// values; for other errors (documented: 500) a deviation is counted, not judged
+				ok = true
+				a.nonFwStatus++
+			}
 		}
 		if s.preSet > 0 {
 			a.preDefault++
@@ -900,6 +916,7 @@ func (rn *runner) judgeTree(c *ev.Case, ts *treeSpec, reqs []reqSpec) map[string
 		e.Stat("errors_with_earlier_status_on_response", int64(a.preAny))
 		e.Stat("errors_after_sendfile_in_chain", int64(a.afterSendFile))
 		e.Stat("errors_delivered_through_logger_middleware", int64(a.viaLogger))
+		e.Stat("default_handler_status_not_500_for_non_framework_error", int64(a.nonFwStatus))
 		e.Stat("errors_from_recovered_panics", int64(a.panicked))
 		if a.withErr > 0 && rq.Plan.Kind >= kSentinel {
 			e.Stat("requests_with_sentinel_error_values", 1)
